@@ -794,5 +794,16 @@ func (e *Enc) deferCall(x *ssa.Defer) {
 	if isSinkName(name) || strings.HasSuffix(name, ".Close") {
 		return
 	}
+	// a deferred repo function under a contract with "modifies nothing" has no effect on any state the caller or a later
+	// transition can observe (it may read its arguments and emit events); in a nopanic function it is not accepted
+	if callee := x.Call.StaticCallee(); callee != nil && !e.r.nopanic {
+		if ct := e.r.v.specs.Contracts[funcKey(callee)]; ct != nil && !ct.ModAll && len(ct.Modifies) == 1 && ct.Modifies[0].E != nil && ct.Modifies[0].E.Op == "id" && ct.Modifies[0].E.S == "nothing" {
+			if e.r.v.callees[e.r] == nil {
+				e.r.v.callees[e.r] = map[string]bool{}
+			}
+			e.r.v.callees[e.r][ct.Key] = true
+			return
+		}
+	}
 	e.r.errorf("outside subset: defer of %s in %s", name, e.fn.Name())
 }
